@@ -14,7 +14,7 @@ for arg in sys.argv[1:]:
     meta = json.load(open(f"{src}/meta.json"))
     checks = {k[6:]: v for k, v in ev.items() if k.startswith("check_")}
     meta.update({
-        "breaks_property": prop,
+        "breaks_property": meta.get("property", prop),
         "origin": "written by an independent sub-agent that saw only the property text and a scratch worktree",
         "confirmed": {"tests_with_change": ev["tests"], "demo_fails_with_change": True, "demo_passes_without_change": True,
                       "how": "tools/seed_eval.py: git apply in a scratch worktree, pytest (558 passed / 68 pre-existing failures), "
